@@ -1693,7 +1693,7 @@ def float_pop(avoid_flt = None, src = None):
     if avoid_flt != float_st6:
         e.append(ExprAff(float_st6, float_st7))
     if avoid_flt != float_st7:
-        if src is None: src = ExprInt32(0)
+        if src is None: src = ExprInt64(0)
         e.append(ExprAff(float_st7, src))
     e.append(ExprAff(float_stack_ptr, ExprOp('-', float_stack_ptr, ExprInt32(1))))
     return e
